@@ -126,11 +126,11 @@ for fn, extra in (('lower_bound', []), ('contains', []), ('upper_bound', []), ('
 DYN_Q = [fam_dyn.dinst('uint32_t', 'uint32_t')]
 DYN_ALL = [fam_dyn.dinst('uint32_t', 'uint32_t'), fam_dyn.dinst('uint64_t', 'uint64_t'), fam_dyn.dinst('int64_t', 'uint32_t')]
 DYN_NOTE = 'DynamicPGMIndex item type ItemA with arithmetic V (tombstone = numeric max); ItemB (flag) is not instantiated'
-U('dyn_lower_bound_bl', fam_dyn, 'Dyn_lower_bound_bl', ['C05', 'C17'], decls=['dyn_ghost'], lemmas=['lemma_sorted'], insts=DYN_Q, thorough_insts=DYN_ALL,
+U('dyn_lower_bound_bl', fam_dyn, 'Dyn_lower_bound_bl', ['C05', 'C17'], decls=['dyn_ghost'], lemmas=['lemma_sorted'], insts=DYN_Q, thorough_insts=DYN_ALL[:2],
   spec=('dyn.spec',), assumptions=[DYN_NOTE])
 U('dyn_find', fam_dyn, 'Dyn_find', ['C05', 'C16', 'C17'], inline=['Item_deleted', 'Dyn_level', 'Dyn_pgm', 'Dyn_has_pgm', 'Dyn_end'], stubs=['Dyn_lower_bound_bl'],
   assumed=['PGMType_search'], decls=['dyn_ghost', 'dyn_rank'], lemmas=['lemma_strict', 'lemma_absent', 'lemma_rank_item', 'lemma_pgm_built'],
-  insts=DYN_Q, thorough_insts=DYN_ALL, spec=('dyn.spec',), frame_ghost_only=True, assumptions=[DYN_NOTE, SEARCH_NOTE, 'at most 32 levels (the class allocates 32 - min_level level slots)'])
+  insts=DYN_Q, thorough_insts=DYN_ALL[:2], spec=('dyn.spec',), frame_ghost_only=True, assumptions=[DYN_NOTE, SEARCH_NOTE, 'at most 32 levels (the class allocates 32 - min_level level slots)'])
 U('dyn_ceil_log2', fam_dyn, 'Dyn_ceil_log2', ['C15', 'C17'], decls=['dyn_ghost'], insts=DYN_Q, spec=('dyn.spec',))
 U('dyn_max_size', fam_dyn, 'Dyn_max_size', ['C15', 'C17'], inline=['Dyn_ceil_log2'], decls=['dyn_ghost'], insts=DYN_Q, spec=('dyn.spec',))
 
